@@ -50,9 +50,9 @@ def rules_for(prop):
         "C04": [named(grp.rule_fwd1, heads=("group_by",)), named(grp.rule_eq1, files=("rxsci/operators/group_by.py", "rxsci/state/memory_store.py", "rxsci/state/store.py",
                                            "rxsci/operators/multiplex.py"), min_instances=1), named(grp.rule_fw1, heads=("group_by",)), grp.rule_fl1,
                 named(lv.rule_lv, only=("group_by_mux._group_by.on_subscribe",)), scoped(sub.rule_sub1, ("rxsci/operators/group_by.py",)), ms.ms_for_types("mapper", maps=True), ms.rule_tp1, named(mx.rule_mx5, heads_only=("group_by",)), *plumbing(*("rxsci/operators/group_by.py", "rxsci/operators/multiplex.py", "rxsci/state/with_store.py"))],
-        "C05": [named(grp.rule_fwd1, heads=("roll",)), grp.rule_roll, named(grp.rule_fw1, heads=("roll_count",)), scoped(st.rule_st2_3_4, ROLL), scoped(st.rule_st6, ROLL),
+        "C05": [named(grp.rule_fwd1, heads=("roll",)), grp.rule_roll, named(grp.rule_fw1, heads=("roll_count",)), named(grp.rule_fw1, heads=("group_by",)), scoped(st.rule_st2_3_4, ROLL), scoped(st.rule_st6, ROLL),
                 named(lv.rule_lv, only=("roll_mux._roll.subscribe", "roll_mux._roll_count.subscribe")), scoped(sub.rule_sub1, ROLL), ms.ms_for_types("int", "uint", "mapper", maps=True), ms.rule_tp1, named(mx.rule_mx5, heads_only=("roll",)), *plumbing(*ROLL)],
-        "C08": per_subscription("rxsci/operators/tee_map.py") + [tm.rule_tm123, tm.rule_tm4, tm.rule_tm5, st.rule_st5, mx.rule_mx7, ag.rule_ag1, lv.rule_lv, mx.rule_mx5, tm.rule_tm6],
+        "C08": per_subscription("rxsci/operators/tee_map.py") + [tm.rule_tm123, tm.rule_tm4, tm.rule_tm5, st.rule_st5, mx.rule_mx7, ag.rule_ag1, lv.rule_lv, mx.rule_mx5, tm.rule_tm6, only_constructs(pr.rule_pr1, ("rxsci/operators/tee_map.py", "rxsci/mux/"))],
         "C09": scan.RULES + per_subscription("rxsci/operators/scan.py", "rxsci/operators/count.py", "rxsci/data/to_list.py", "rxsci/data/to_array.py") + [ms.ms_for_types("int", "float", "bool", "obj", maps=True), ms.rule_tp1, grp.rule_eq2, mx.rule_mx6, lv.rule_lv, named(grp.rule_fw1, heads=("group_by",)), only_constructs(grp.rule_fl1, ("rxsci/state/memory_store.py",))],
         "C10": seq.RULES + per_subscription(*SEQ) + [only_constructs(ag.rule_ag1, SEQ), only_constructs(ag.rule_ag2, SEQ), scoped(ag.rule_ag8, SEQ), scan.rule_sc1, named(grp.rule_eq1, files=("rxsci/operators/distinct.py", "rxsci/operators/distinct_until_changed.py",
                                                        "rxsci/operators/first.py", "rxsci/operators/take.py", "rxsci/operators/last.py",
@@ -73,9 +73,9 @@ def rules_for(prop):
         "C18": [scoped(sub.rule_src1, ("rxsci/container/csv.py",) + FRAMING + FILEIO), scoped(io.rule_cd2, ("rxsci/container/csv.py",) + CODEC + FRAMING + FILEIO), cont.rule_csv_tables, cont.rule_csv_merge, cont.rule_csv_classify, cont.rule_csv_file_modes, cont.rule_dp7, io.rule_fr3, io.rule_fh1_file, io.rule_fr1] + per_subscription("rxsci/container/csv.py", "rxsci/framing/line.py", *FILEIO),
         "C19": [scoped(sub.rule_src1, ("rxsci/container/json.py",) + CODEC + COMPRESSION + FRAMING + FILEIO), scoped(io.rule_cd2, ("rxsci/container/json.py",) + CODEC + FRAMING + FILEIO + COMPRESSION), cont.rule_ag7, io.rule_framing, io.rule_codec, io.rule_compression, io.rule_fr3, io.rule_fh1_file] + per_subscription("rxsci/container/json.py", *(FRAMING + COMPRESSION + CODEC + FILEIO)),
         "C20": [scoped(sub.rule_src1, ("rxsci/container/parquet.py",)), cont.rule_pu2, seq.rule_dp6, io.rule_fh1_parquet, scan.rule_sd1, scan.rule_sc1] + per_subscription("rxsci/container/parquet.py", "rxsci/data/batch.py", "rxsci/operators/scan.py"),
-        "C06": [named(grp.rule_fwd1, heads=("split",)), named(grp.rule_eq1, files=("rxsci/data/split.py",), min_instances=1), named(grp.rule_fw1, heads=("split",)), grp.rule_dp4,
+        "C06": [named(grp.rule_fwd1, heads=("split",)), named(grp.rule_eq1, files=("rxsci/data/split.py",), min_instances=1), named(grp.rule_fw1, heads=("split",)), named(grp.rule_fw1, heads=("group_by",)), grp.rule_dp4,
                 named(lv.rule_lv, only=("split_mux._split.on_subscribe",)), scoped(sub.rule_sub1, ("rxsci/data/split.py",)), ms.ms_for_types("obj", "mapper", maps=True), ms.rule_tp1, mx.rule_mx6, named(mx.rule_mx5, heads_only=("split",)), *plumbing(*("rxsci/data/split.py",))],
-        "C07": [named(grp.rule_fwd1, heads=("time_split",)), grp.rule_time_split, grp.rule_dur1, seq.rule_opt1_time_split, named(grp.rule_fw1, heads=("time_split",)),
+        "C07": [named(grp.rule_fwd1, heads=("time_split",)), grp.rule_time_split, grp.rule_dur1, seq.rule_opt1_time_split, named(grp.rule_fw1, heads=("time_split",)), named(grp.rule_fw1, heads=("group_by",)),
                 named(lv.rule_lv, only=("time_split_mux._time_split.on_subscribe",)), scoped(sub.rule_sub1, ("rxsci/data/time_split.py",)), ms.ms_for_types("obj", "mapper", maps=True), ms.rule_tp1, named(mx.rule_mx5, heads_only=("time_split",)), *plumbing(*("rxsci/data/time_split.py",))],
     }
     return table.get(prop)
@@ -165,13 +165,13 @@ _PLUMB = (" Also, on the modules of this property: SUB-1 (where listed) per-subs
 _EQ2 = " EQ-2 a marker object (STATE_NOTSET, STATE_CLEARED) is told apart by identity, never by == (which would run the __eq__ of the user value in the slot)."
 _ADDED = {
     "C01": " MX-9 an operator that tells mux events apart and sends them on builds a MuxObservable (a plain Observable of event tuples would send its successor down its plain arm); MS-6 the store layers forward state, key and value unchanged; TP-1 (state ids); FW-1 for group_by." + _EQ2 + _PLUMB,
-    "C02": _EQ2 + " MS-6 (forwarders); GEN-1 no generator-built handler; TP-1 the state topology gives every declaration a new state id (create_mapper included); MX-6 one topology is probed by every subscriber of a merged source.",
+    "C02": _EQ2 + " ST-5 also: the reset of tee_map's join slots covers every end of a lifetime (at creation, or at both completion and error), and every store into the join tables addresses the handled key's own slots. MS-6 (forwarders); GEN-1 no generator-built handler; TP-1 the state topology gives every declaration a new state id (create_mapper included); MX-6 one topology is probed by every subscriber of a merged source.",
     "C03": _EQ2 + " DP-4 split records a segment before anything is sent into its pipeline; MS-6 (forwarders); TP-1 (state ids are never shared between declarations); SUB-3 (see C01) on every module.",
     "C04": " MX-5 the sandwich of group_by; FWD-1 the public group_by hands key_mapper and pipeline unchanged to the implementation; TP-1 two group_by in one pipeline get two mapper states." + _PLUMB,
-    "C05": " MX-5 the sandwich of roll; FWD-1 the public roll hands window and stride unchanged to the implementation." + _PLUMB,
-    "C06": " MX-5 the sandwich of split (head, the user pipeline, demux on the head's own Subject); FWD-1 the public split hands predicate and pipeline unchanged to the implementation; MX-6 one shared topology when several multiplexed sources are merged." + _PLUMB,
-    "C07": " DUR-1 durations are ordered as timedelta values (or total_seconds()), never through .seconds / .microseconds / .days alone; MX-5 the sandwich of time_split; FWD-1 the public time_split hands both timeouts, the time mapper, closing_mapper and include_closing_item unchanged to the implementation (no clamping or defaulting)." + _PLUMB,
-    "C08": " TM-4 also: the zip join releases the key's flags and slots before the tuple goes out; TM-6 who may connect: connect() is called only by tee_map's join, the mux connectable proxy and train_test_split -- never by an operator on a source it was handed; MX-5 also: the shared outer subject of a grouping head is completed / errored exactly when its source is, on every path; TM-3 every application of tee_map publishes its own connectable from its source, also when the source is itself a connectable proxy." + _PLUMB,
+    "C05": " FW-1 also for group_by (the property holds under group_by: the parent's own map is consulted for every item). MX-5 the sandwich of roll; FWD-1 the public roll hands window and stride unchanged to the implementation." + _PLUMB,
+    "C06": " FW-1 also for group_by (split under group_by: the parent's own map is consulted for every item). MX-5 the sandwich of split (head, the user pipeline, demux on the head's own Subject); FWD-1 the public split hands predicate and pipeline unchanged to the implementation; MX-6 one shared topology when several multiplexed sources are merged." + _PLUMB,
+    "C07": " FW-1 also for group_by (time_split under group_by). DUR-1 durations are ordered as timedelta values (or total_seconds()), never through .seconds / .microseconds / .days alone; MX-5 the sandwich of time_split; FWD-1 the public time_split hands both timeouts, the time mapper, closing_mapper and include_closing_item unchanged to the implementation (no clamping or defaulting)." + _PLUMB,
+    "C08": " ST-5 also: the reset of tee_map's join slots covers every end of a lifetime (at creation, or at both completion and error), and every store into the join tables addresses the handled key's own slots. PR-1 on tee_map and the mux layer: connect and delivery happen synchronously, never through a scheduler. TM-4 also: the zip join releases the key's flags and slots before the tuple goes out; TM-6 who may connect: connect() is called only by tee_map's join, the mux connectable proxy and train_test_split -- never by an operator on a source it was handed; MX-5 also: the shared outer subject of a grouping head is completed / errored exactly when its source is, on every path; TM-3 every application of tee_map publishes its own connectable from its source, also when the source is itself a connectable proxy." + _PLUMB,
     "C09": _EQ2 + " MX-6 the root multiplexer frames a failing source as an error, not as a completion; AG-3b a marker tested in the plain scan's accumulator variable is the value that variable starts with." + _PLUMB,
     "C10": _EQ2 + " FW-2 also: pad_start / pad_end refuse negative sizes only (0 is the identity); AG-8 the plain arms are the implementations confirmed on the pinned tree." + _PLUMB,
     "C11": " PR-4 from_iterable emits each element before it pulls the next (no look-ahead); AG-1 / AG-2 on flat_map (the plain arm is the repository's synchronous twin, given the same arguments); OPT-1 / DUR-1 for time_split (a zero timeout is a timeout; durations compared as durations); TM-1..4 for tee_map: the join completes with its last branch, not with the source." + _PLUMB,
@@ -180,10 +180,10 @@ _ADDED = {
     "C14": " MS-2 also: the three arrays only ever grow, and only in add_key (a slot popped and grown back reads as cleared for a key that is alive and not written yet); TP-1 (state ids); FL-1 (store half) iterate_map walks the parent's dict itself -- every mapped key, in insertion order, no sorting or filtering in between -- and a mapper starts every parent lifetime with its own empty dict.",
     "C15": " FR-1 also: the carry-over of line.unframe is in place before the first line of the chunk is handed on; FR-1 / FR-2 also: unframe signals no terminal event while handling a chunk (a chunk of any length is legitimate); FR-2 guard: the size test of frame rejects only lengths that do not fit in prefix_size bytes (folded for 1, 2, 4, 8)." + _PLUMB,
     "C16": " OB-1 also: compress / decompress handle the completion of their source themselves (flush; end-of-stream check), never hand it over as it comes." + _PLUMB,
-    "C17": " CD-2 every str.encode / bytes.decode on the way of the data (codec, containers, framing, file io) uses the strict error scheme; OB-1 / FR-3 the transports the codec pipelines run over (compression stages, file.read) hand every byte on." + _PLUMB,
-    "C18": " FH-1 also: file.write writes every item as it comes (where it keeps a write buffer, some path of on_completed writes it out whichever kind of target was given); SRC-1 the stages subscribe their source itself, not a pipeline over it that drops items; CD-2 (see C17) on csv.py and the stages of its pipelines; FR-3 also: the chunks are read from the object given as file, or from what was opened from it; CS-5 also: the reader decodes the whole file with one decoder (text-mode file or incremental decode stage, never chunk by chunk) using the encoding it was given; the writer creates / truncates the file." + _PLUMB,
-    "C19": " AG-7 also: the JSON parser is handed the line as it came (no rewriting of the raw text before it is parsed); SRC-1 dump / load and the stages of their pipelines subscribe the source they were applied to, not a pipeline over it that drops items (distinct_until_changed, filter, take ...); FH-1 also: file.write opens the path through the open function the caller gave (the reader does); CD-2 (see C17) on json.py and the stages of its pipelines." + _PLUMB,
-    "C20": " PU-2 also: the reader is opened on the caller's file object or on the file opened from the caller's path; the writer is opened on the given schema without an option that rewrites names or values (flavor, timestamp coercion); file modes 'wb' / 'rb'; the loader runs to completion for a path and for a file object." + _PLUMB,
+    "C17": " FH-1 / FR-3 also: the caller's open function is given path, mode and the encoding keyword on every call. CD-2 every str.encode / bytes.decode on the way of the data (codec, containers, framing, file io) uses the strict error scheme; OB-1 / FR-3 the transports the codec pipelines run over (compression stages, file.read) hand every byte on." + _PLUMB,
+    "C18": " CS-1 also: every field that is read is one of none_values or goes through its column parser (no value from anywhere else); FH-1 / FR-3 also: the caller's open function is given path, mode and the encoding keyword on every call. FH-1 also: file.write writes every item as it comes (where it keeps a write buffer, some path of on_completed writes it out whichever kind of target was given); SRC-1 the stages subscribe their source itself, not a pipeline over it that drops items; CD-2 (see C17) on csv.py and the stages of its pipelines; FR-3 also: the chunks are read from the object given as file, or from what was opened from it; CS-5 also: the reader decodes the whole file with one decoder (text-mode file or incremental decode stage, never chunk by chunk) using the encoding it was given; the writer creates / truncates the file." + _PLUMB,
+    "C19": " FH-1 / FR-3 also: the caller's open function is given path, mode and the encoding keyword on every call (its documented prototype). AG-7 also: the JSON parser is handed the line as it came (no rewriting of the raw text before it is parsed); SRC-1 dump / load and the stages of their pipelines subscribe the source they were applied to, not a pipeline over it that drops items (distinct_until_changed, filter, take ...); FH-1 also: file.write opens the path through the open function the caller gave (the reader does); CD-2 (see C17) on json.py and the stages of its pipelines." + _PLUMB,
+    "C20": " PU-2 also: nothing stands between the caller's file object and the parquet reader (no read() into a buffer, which starts where the caller left the object). PU-2 also: the reader is opened on the caller's file object or on the file opened from the caller's path; the writer is opened on the given schema without an option that rewrites names or values (flavor, timestamp coercion); file modes 'wb' / 'rb'; the loader runs to completion for a path and for a file object." + _PLUMB,
 }
 for _k, _v in _ADDED.items():
     EXPLANATION[_k] = EXPLANATION[_k] + _v
